@@ -184,7 +184,7 @@ pub fn roundtrip(ctx: &Ctx, rep: &mut Report) {
 }
 
 /// x^j * a in Z[X]/(X^n+1)
-fn shift(a: &[i64], j: usize) -> Vec<i64> {
+pub fn shift(a: &[i64], j: usize) -> Vec<i64> {
     let n = a.len();
     let mut r = vec![0i64; n];
     for i in 0..n {
@@ -305,7 +305,107 @@ fn boundary_keys_v<V: Fv>(ctx: &Ctx, nkeys: usize, per_key: usize, rep: &mut Rep
     rep.merge(r);
 }
 
+/// Pairs of DIFFERENT valid secret keys whose encodings have the same length and the same
+/// simple checksums (byte sum, and where possible also byte xor), decoded one right after the
+/// other on one thread, in both orders, followed by the first one again. The keys are lattice
+/// variants (F' = F + c x^j f, G' = G + c x^j g) of a few base keys, so collisions are plentiful
+/// and include pairs with different public keys. A decoder that recognises "the key I decoded
+/// last time" by anything short of the whole encoding hands back the wrong key here.
+fn checksum_pairs_v<V: Fv>(ctx: &Ctx, nkeys: usize, npairs: usize, rep: &mut Report) {
+    let (keys, _bad) = crate::pool::keys::<V>(ctx.seed, "c05-cks", nkeys);
+    let mut cands: Vec<(usize, Vec<u8>)> = vec![];
+    for (ki, k) in keys.iter().enumerate() {
+        let b0 = V::basis(&k.sk);
+        let g: Vec<i64> = b0[0].iter().map(|&x| x as i64).collect();
+        let f: Vec<i64> = b0[1].iter().map(|&x| -(x as i64)).collect();
+        let cg: Vec<i64> = b0[2].iter().map(|&x| x as i64).collect();
+        let cf: Vec<i64> = b0[3].iter().map(|&x| -(x as i64)).collect();
+        cands.push((ki, V::sk_to_bytes(&k.sk)));
+        for c in [1i64, -1, 2, -2] {
+            for j in 0..V::N {
+                let sf = shift(&f, j);
+                let sg = shift(&g, j);
+                let f2: Vec<i64> = (0..V::N).map(|i| cf[i] + c * sf[i]).collect();
+                let g2: Vec<i64> = (0..V::N).map(|i| cg[i] + c * sg[i]).collect();
+                if f2.iter().chain(g2.iter()).any(|x| x.abs() > 127) {
+                    continue;
+                }
+                cands.push((ki, spec::sk_encode(&f, &g, &f2)));
+            }
+        }
+    }
+    let cks = |b: &[u8]| (b.iter().map(|&x| x as u64).sum::<u64>(), b.iter().fold(0u8, |a, &x| a ^ x));
+    let mut by_sum: std::collections::HashMap<u64, Vec<usize>> = std::collections::HashMap::new();
+    for (i, (_, b)) in cands.iter().enumerate() {
+        by_sum.entry(cks(b).0).or_default().push(i);
+    }
+    // prefer pairs that also agree in xor, then pairs from different base keys
+    let mut pairs: Vec<(u32, usize, usize)> = vec![];
+    for v in by_sum.values() {
+        for a in 0..v.len().min(6) {
+            for b in a + 1..v.len().min(6) {
+                let (i, j) = (v[a], v[b]);
+                if cands[i].1 == cands[j].1 {
+                    continue;
+                }
+                let score = (cks(&cands[i].1).1 == cks(&cands[j].1).1) as u32 * 2 + (cands[i].0 != cands[j].0) as u32;
+                pairs.push((score, i, j));
+            }
+        }
+    }
+    pairs.sort_by(|a, b| b.0.cmp(&a.0).then(a.1.cmp(&b.1)).then(a.2.cmp(&b.2)));
+    // a mix: the best-scoring ones and some plain ones
+    let chosen: Vec<(u32, usize, usize)> = pairs.iter().take(npairs / 2).chain(pairs.iter().rev().take(npairs - npairs / 2)).cloned().collect();
+    let r = par_for(chosen.len(), ncpu(), |pi, rep| {
+        let (score, i, j) = chosen[pi];
+        let (a, b) = (&cands[i].1, &cands[j].1);
+        let mut bad = false;
+        for (step, x) in [a, b, a, b, b, a].iter().enumerate() {
+            rep.evaluations += 1;
+            let replay = json!({"variant": V::NAME, "sk": hex(x), "decoded_just_before": hex(if step == 0 { b } else { [a, b, a, b, b, a][step - 1] }), "boundary": "checksum-colliding pair"});
+            match monitored(|| V::sk_from_bytes(x).map(|k| (V::sk_to_bytes(&k), V::basis(&k)))) {
+                Err(p) => {
+                    rep.violation(&format!("panic:sk_from_bytes@{}", short_loc(&p.location)), p.message.clone(), replay);
+                    bad = true;
+                }
+                Ok(Err(e)) => {
+                    rep.violation("sk:valid-key-rejected-in-sequence", format!("{}: a valid secret key is rejected when decoded after another one with the same length and byte sum: {}", V::NAME, e), replay);
+                    bad = true;
+                }
+                Ok(Ok((re, basis))) => {
+                    let want = spec::sk_decode(x, V::N).unwrap();
+                    let f_ok = basis[1].iter().map(|&v| -(v as i64)).eq(want.0.iter().cloned());
+                    let cf_ok = basis[3].iter().map(|&v| -(v as i64)).eq(want.2.iter().cloned());
+                    if &re != *x || !f_ok || !cf_ok {
+                        rep.violation(
+                            "sk:decode-depends-on-previous-decode",
+                            format!("{}: decoding a valid key right after a different key with the same length and byte sum (step {} of the sequence A,B,A,B,B,A) returns a key that {}", V::NAME, step, if &re != *x { "re-encodes differently" } else { "has a different basis" }),
+                            replay,
+                        );
+                        bad = true;
+                    }
+                }
+            }
+            if bad {
+                break;
+            }
+        }
+        rep.count("checksum_colliding_pairs_decoded_in_sequence", 1);
+        if score >= 2 {
+            rep.count("pairs_colliding_in_sum_and_xor", 1);
+        }
+        if score % 2 == 1 {
+            rep.count("pairs_from_different_base_keys", 1);
+        }
+        rep.nontrivial(format!("cks|{}|{}|{}", V::NAME, crate::util::hash64(a), crate::util::hash64(b)).as_bytes());
+    });
+    rep.merge(r);
+}
+
 pub fn boundary_keys(ctx: &Ctx, rep: &mut Report) {
+    checksum_pairs_v::<F512>(ctx, ctx.sz(3, 8), ctx.sz(24, 200), rep);
+    checksum_pairs_v::<F1024>(ctx, ctx.sz(2, 4), ctx.sz(12, 100), rep);
+    rep.require("checksum_colliding_pairs_decoded_in_sequence", 10);
     boundary_keys_v::<F1024>(ctx, ctx.sz(4, 24), 8, rep);
     boundary_keys_v::<F512>(ctx, ctx.sz(12, 60), 8, rep);
     rep.require("boundary_keys_roundtripped", 8);
@@ -317,6 +417,11 @@ pub fn boundary_keys(ctx: &Ctx, rep: &mut Report) {
 pub fn replay(r: &Value) -> bool {
     if let Some(skh) = r["sk"].as_str() {
         let b = unhex(skh);
+        if let Some(prev) = r["decoded_just_before"].as_str() {
+            // sequence-dependent finding: decode the predecessor first, on this thread
+            let pb = unhex(prev);
+            let _ = if r["variant"] == "falcon512" { F512::sk_from_bytes(&pb).is_ok() } else { F1024::sk_from_bytes(&pb).is_ok() };
+        }
         let out = if r["variant"] == "falcon512" { F512::sk_from_bytes(&b).map(|k| F512::sk_to_bytes(&k) == b) } else { F1024::sk_from_bytes(&b).map(|k| F1024::sk_to_bytes(&k) == b) };
         println!("boundary key {}: from_bytes -> {:?} (Ok(true) = accepted and re-encodes identically)", r["boundary"], out);
         return out == Ok(true);
